@@ -117,7 +117,7 @@ def _split_known(ctx, r):
 
 def run_c47(ctx, pid):
     quick = ctx.quick
-    pool = ThreadPoolExecutor(5 if quick else 3)
+    pool = ThreadPoolExecutor(6 if quick else 3)
     # 1. design (exhaustive, bounded).  MC_Breaker_race.cfg: the repaired design with the interleaving point inside tryAcquire (it
     #    subsumes MC_Breaker.cfg: a Park immediately followed by Resume is the atomic Begin); MC_Breaker_race_asis.cfg: the code as
     #    it is (Defects = {"StaleHalfOpen"}) must violate a rule, otherwise the Defects branch is stale.
@@ -127,6 +127,8 @@ def run_c47(ctx, pid):
     f_grace = pool.submit(ctx.tlc, BSPEC, "Gen_Breaker_race.cfg", module="Gen_Breaker", workers=1, deadlock_check=False, timeout=1800, name="cover-race")
     # a single caller with a long clock (idle windows, realignment of the buckets): deep in time, narrow in concurrency
     f_gidle = pool.submit(ctx.tlc, BSPEC, "Gen_Breaker_idle.cfg", module="Gen_Breaker", workers=1, deadlock_check=False, timeout=1800, name="cover-idle")
+    # a single caller over P3 = 4 buckets of 1 tick: idle gaps that skip 1, 2, 3 buckets or the whole window, between outcomes
+    f_ggap = pool.submit(ctx.tlc, BSPEC, "Gen_Breaker_gap.cfg", module="Gen_Breaker", workers=1, deadlock_check=False, timeout=1800, name="cover-gap")
     f_sim = pool.submit(ctx.tlc, BSPEC, "Sim_Breaker.cfg", module="Gen_Breaker", simulate="num=%d" % (120 if quick else 1500), depth=41,
                         deadlock_check=False, workers=1, timeout=1800, name="sim-p2")
     extra = {}
@@ -153,7 +155,30 @@ def run_c47(ctx, pid):
     if len(idle_all) < 10000:
         raise vlib.Infra("idle cover produced too little (%d)" % len(idle_all))
     idle = vlib.sample(ctx.rng, idle_all, 600) if quick else idle_all
-    race = ((vlib.sample(ctx.rng, with_k, 1500) + vlib.sample(ctx.rng, without_k, 700)) if quick else race_all) + idle
+    gap_all = _behaviours(f_ggap.result().out)
+    if len(gap_all) < 10000:
+        raise vlib.Infra("gap cover produced too little (%d)" % len(gap_all))
+    gap = vlib.sample(ctx.rng, gap_all, 500) if quick else gap_all
+
+    def interleaved(h):   # another caller begins while one is in the middle of the opening transition (between X: and F:)
+        mid = None
+        for o in h:
+            f = o.split(":")
+            if f[0] == "X":
+                mid = f[1]
+            elif f[0] == "F":
+                mid = None
+            elif mid and f[0] in ("B", "K") and f[1] != mid:
+                return True
+        return False
+    with_x = [b for b in race_all if any(o.startswith("X:") for o in b)]
+    x_inter = [b for b in with_x if interleaved(b)]
+    x_other = [b for b in with_x if not interleaved(b)]
+    k_only = [b for b in with_k if not any(o.startswith("X:") for o in b)]
+    if len(x_inter) < 500:
+        raise vlib.Infra("too few histories interleave a caller with an opening transition (%d)" % len(x_inter))
+    race = ((vlib.sample(ctx.rng, k_only, 1200) + vlib.sample(ctx.rng, x_inter, 400) + vlib.sample(ctx.rng, x_other, 200)
+             + vlib.sample(ctx.rng, without_k, 500)) if quick else race_all) + idle
     cover1 = cover2 = []
     if not quick:
         for k in ("mc1", "mc2", "ideal"):
@@ -166,6 +191,9 @@ def run_c47(ctx, pid):
             % (len(race), len(race_all) + len(idle_all), len(idle), len(idle_all), sum(1 for b in race if any(o.startswith("K:") for o in b)),
                len(cover1), len(cover2), len(walks)))
     p1, p2 = _cfg_params(BSPEC, "Gen_Breaker_race.cfg"), _cfg_params(BSPEC, "Sim_Breaker.cfg")
+    p3 = _cfg_params(BSPEC, "Gen_Breaker_gap.cfg")
+    if p3 != _cfg_params(BSPEC, "Trace_BreakerAbs_p3.cfg") or p3 != _cfg_params(BSPEC, "Trace_Breaker_p3.cfg") or p3["NB"] < 3:
+        raise vlib.Infra("parameter set P3 of the gap configurations is inconsistent")
     for cfg, pp in (("Gen_Breaker_idle.cfg", p1), ("Trace_BreakerAbs.cfg", p1), ("Trace_Breaker.cfg", p1), ("Trace_Breaker_race.cfg", p1), ("Gen_Breaker.cfg", p1),
                     ("Trace_BreakerAbs_p2.cfg", p2), ("Trace_Breaker_p2.cfg", p2), ("Gen_Breaker_t.cfg", p2)):
         if _cfg_params(BSPEC, cfg) != pp:
@@ -174,7 +202,8 @@ def run_c47(ctx, pid):
     # 3. replay on the real breaker   4. judge (monitor = verdict, conformance = drift)
     exe = ctx.build("breakerbackoff")
     reps = [breaker_replay(ctx, exe, "race", p1, race, "Trace_BreakerAbs.cfg", "Trace_Breaker_race.cfg", split=True),
-            breaker_replay(ctx, exe, "p2", p2, cover2 + walks, "Trace_BreakerAbs_p2.cfg", "Trace_Breaker_p2.cfg")]
+            breaker_replay(ctx, exe, "p2", p2, cover2 + walks, "Trace_BreakerAbs_p2.cfg", "Trace_Breaker_p2.cfg"),
+            breaker_replay(ctx, exe, "p3", p3, gap, "Trace_BreakerAbs_p3.cfg", "Trace_Breaker_p3.cfg", split=True)]
     if cover1:
         reps.append(breaker_replay(ctx, exe, "p1", p1, cover1, "Trace_BreakerAbs.cfg", "Trace_Breaker.cfg"))
     jobs = [(r, pool.submit(r["mon"]), pool.submit(r["conf"])) for r in reps]
@@ -193,7 +222,7 @@ def run_c47(ctx, pid):
     ctx.log("race: %d stale resumes on the real code; %d histories deviate as the known finding describes, %d otherwise"
             % (r3["stats"]["stale_resumes"], race_known, len(race_bad)))
 
-    behaviours = race + cover1 + cover2 + walks
+    behaviours = race + gap + cover1 + cover2 + walks
 
     def nontrivial(b):   # reaches Open at least (two failures are needed at the very least) and lets time pass
         return sum(1 for o in b if o.startswith("E:") and not o.endswith(":ok") and not o.endswith(":cancel")) >= 2 and "T" in b
@@ -216,9 +245,11 @@ def run_c47(ctx, pid):
         "traces_validated_against_impl": len(behaviours),
         "samples": [race[0], race[len(race) // 2], race[-1], walks[0]],
         "evaluations": len(behaviours), "distinct_nontrivial": distinct_nt,
-        "rule": "P1: for every transition of the bounded state graph of Breaker.tla with the interleaving point inside tryAcquire "
-                "(Gen_Breaker_race.cfg, the model of the code as it is) a shortest history taking it (quick: seeded sample of 1500 that park "
-                "a caller at the hook + 700 that do not + 600 of the cover of Gen_Breaker_idle.cfg (one caller, clock up to 9: idle windows); "
+        "rule": "P1: for every transition of the bounded state graph of Breaker.tla with the interleaving point inside tryAcquire and the "
+                "opening transition in two steps (Gen_Breaker_race.cfg, the model of the code as it is) a shortest history taking it (quick: "
+                "seeded samples: 1200 that park a caller at the hook, 400 in which another caller begins in the middle of an opening transition, "
+                "200 other two-step openings, 500 others; + 500 of the cover of Gen_Breaker_gap.cfg (P3: 4 buckets x 1 tick, one caller, "
+                "idle gaps of every length) + 600 of the cover of Gen_Breaker_idle.cfg (one caller, clock up to 9: idle windows); "
                 "thorough: all, plus the cover of the unsplit model Gen_Breaker.cfg (P1) and a "
                 "seeded sample of 30000 of the cover of Gen_Breaker_t.cfg (P2)); P2: TLC random walks of depth 40 over 3 callers and 5 outcomes (TLC emits each walk with every "
                 "alternative last step); every history is finished by resuming parked callers, completing the calls in flight and reading "
@@ -226,19 +257,24 @@ def run_c47(ctx, pid):
         "events_validated": sum(r["lines"] for r in reps), "covering_histories_total_split_model": len(race_all), "covering_histories_total_idle_model": len(idle_all),
         "covering_histories_run": len(race) + len(cover1) + len(cover2), "random_walks": len(walks),
         "histories_with_concurrent_callers": concurrent,
+        "opening_transitions_taken_in_two_steps": r3["stats"]["mid_transitions"],
+        "histories_interleaving_a_caller_with_an_opening_transition": sum(1 for b in race if interleaved(b)),
+        "gap_histories_run": len(gap), "gap_histories_total": len(gap_all),
         "race_parks": r3["stats"]["parks"], "race_stale_resumes_on_real_code": r3["stats"]["stale_resumes"],
         "race_histories_deviating_as_known_finding": race_known, "race_model_asis_violates": mca.violated,
         "exhaustive": False, "transition_cover_p1_complete": not quick, "conformance_drift": drift,
         "model_prediction_mismatches": sum(r["stats"]["pred_mismatch"] for r in reps),
         "ops_skipped_by_driver": sum(r["stats"]["skipped"] for r in reps),
-        "monitor_mismatches": sum(len(r["mismatches"]) for r in reps), "parameters": {"P1": p1, "P2": p2},
+        "monitor_mismatches": sum(len(r["mismatches"]) for r in reps), "parameters": {"P1": p1, "P2": p2, "P3": p3},
     }
     assumptions = [
         "fake monotone clock injected through the public WithClock option; one tick = 1 s",
         "concurrency is explored at the granularity Begin (ctx check + tryAcquire up to the entry of the user function) / End "
         "(return of the user function + record + release): the driver holds the user function, so these segments interleave between "
-        "callers, plus one interleaving point inside tryAcquire (between the openUntil test and toHalfOpen, verifhook + puppet scheduler); "
-        "the other instructions inside a segment do not interleave (e.g. two racing record() calls are not explored)",
+        "callers, plus two interleaving points: inside tryAcquire between the openUntil test and toHalfOpen (verifhook + puppet scheduler) "
+        "and inside transitionTo(Open) at its clock read, i.e. under b.mu before openUntil and the state are stored (gate in the injected "
+        "clock); the other instructions inside a segment do not interleave (e.g. two racing record() calls, the half-open/closed "
+        "transitions, whose clock read happens under the window mutex, are not split)",
         "bounded: parameter sets P1/P2, clock and sample bounds of the MC_Breaker*.cfg files, walk depth 40",
     ]
     if mism:
@@ -250,7 +286,7 @@ def run_c47(ctx, pid):
         vlib.write_ndjson(snippet, beh)
         rp = ctx.save_replay("seed%d-%s" % (ctx.seed, tag), snippet,
                              text="parameters %s = %s\nfailing line (0-based, within the behaviour) %d: %s expected %s got %s\n"
-                                  % (tag, json.dumps(p2 if tag == "p2" else p1), idx, what, exp, got))
+                                  % (tag, json.dumps({"p2": p2, "p3": p3}.get(tag, p1)), idx, what, exp, got))
         ctx.evidence("model_checking", cov, assumptions, violations=len(mism))
         raise vlib.Violation(pid, rp, "monitor: %s on the real breaker is %s, the state machine says %s (%s trace line %s; %d mismatches)"
                              % (what, got, exp, tag, line, len(mism)))
